@@ -17,12 +17,12 @@ def _funcs():
 
 
 def truncated(kind, blocked, bounds, tsplit=None, api='class'):
-    nblocks = (sum(bounds) + 4 * len(bounds) + 4) // 1012 + 2
+    nblocks = (sum(b[1] if isinstance(b, tuple) else b for b in bounds) + 4 * len(bounds) + 4) // 1012 + 2
 
     def h():
         core.FUEL.set(nblocks + 4)
         m = M().mciipm
-        ns = [sym_int('len%d' % i, 1, b) for i, b in enumerate(bounds)]
+        ns = [sym_int('len%d' % i, *(b if isinstance(b, tuple) else (1, b))) for i, b in enumerate(bounds)]
         f = RopeFile()
         t = sym_int('t', 0, 20000)
         recs = vals = None
@@ -134,6 +134,9 @@ def obligations(tier):
                 for j in range(nb):
                     obs.append(Ob('cut2/%s/t-in-block-%d' % (tag, j), truncated(kind, blocked, [mx, mx], (j * 1014, (j + 1) * 1014 if j < nb - 1 else None)), 600,
                                   'two records of length 1..%d, cut offset in block %d' % (mx, j), _funcs))
+    for blocked in (False, True):
+        obs.append(Ob('cut2-max/vbs/%s' % ('blocked' if blocked else 'unblocked'), truncated('vbs', blocked, [(5996, 6000), 30]), 600,
+                      'a record of 5996..6000 bytes (up to the configured maximum) followed by a short one, every cut offset', _funcs))
     for blocked in (False, True):
         obs.append(Ob('cut2-func/vbs/%s' % ('blocked' if blocked else 'unblocked'), truncated('vbs', blocked, [1200, 600] if blocked else [2500, 2500], api='func'), 400,
                       'vbs_bytes_to_list on truncated data (no options for plain VBS, blocked=True for 1014): two records, every cut offset', _funcs))
